@@ -41,8 +41,19 @@ ASSUMPTIONS = [
 
 def generate(seed, index, tier):
     rng = scenarios.derive_rng(seed, ID, index)
-    scn = scenarios.single_step(rng, new_models=rng.random() < 0.2)
-    scn['mode'] = 'hinted' if rng.random() < 0.3 else 'written'
+    mode = 'hinted' if rng.random() < 0.3 else 'written'
+    ops = None
+    if mode == 'hinted':
+        # hints cannot express model renames (C05: 'supported ways')
+        import copy as _copy
+        from evosim import gen as _gen
+        cfg = _gen.swarm_config(rng)
+        cfg['ops']['RenameModel'] = 0
+        scn = scenarios.single_step(rng, cfg=cfg,
+                                    new_models=rng.random() < 0.2)
+    else:
+        scn = scenarios.single_step(rng, new_models=rng.random() < 0.2)
+    scn['mode'] = mode
     scn['hashseed'] = rng.choice([0, 0, 1, 2])
     return scn
 
@@ -125,6 +136,10 @@ def execute(scn):
     tags = common.op_tags(P)
     with runner.Workspace() as ws:
         r0 = common.install(ws, P, sts, 0, scn['rows'])
+        if getattr(r0, 'rows_rejected', None):
+            stats['rows_rejected'] = 1
+            res['runs'] = ws.nruns
+            return res
         if r0.status != 'ok':
             stats['install_failed'] = 1
             res['runs'] = ws.nruns
@@ -147,7 +162,9 @@ def execute(scn):
         if r.status != 'ok':
             viols.append(violation(
                 'C01.run_failed', status=r.status,
+                exc=(r.exit or {}).get('exc'),
                 msg=(r.exit or {}).get('msg', '')[:300], ops=tags,
+                ops_str=' '.join(tags),
                 mode=scn.get('mode'), rebuilt=rebuilt))
             res['nontrivial'] = True
             return res
@@ -175,14 +192,16 @@ def execute(scn):
                     }[d['kind']]
             viols.append(violation(
                 rule, table=d['table'], kind=d['kind'], what=d['what'],
-                origin=d.get('origin'), rebuilt=d['table'] in rebuilt,
-                ops=tags, mode=scn.get('mode')))
+                origin=d.get('origin'), shadowed=d.get('shadowed', False),
+                rebuilt=d['table'] in rebuilt,
+                ops=tags, ops_str=' '.join(tags), mode=scn.get('mode')))
         # tables that should be gone
         want = set(common.app_tables(sts[1], apps))
         had = set(common.app_tables(sts[0], sorted(sts[0]['apps'])))
         for t in sorted((had - want) & set(post['tables'])):
             viols.append(violation('C01.table_set', table=t,
-                                   kind='table_left', ops=tags))
+                                   kind='table_left', ops=tags,
+                                   ops_str=' '.join(tags)))
         if 'TEMP_TABLE' in post['tables']:
             viols.append(violation('C01.temp_left', ops=tags))
         touched = touched_models(P, sts[0], sts[1])
